@@ -218,6 +218,7 @@ def cmStep (st : CmSt) (line : String) (t : Tally) : Except String (CmSt × Tall
   | ["sent", p, n] =>
     let got := ((st.nextSeq.find? (·.1 == p.toNat!)).map (·.2)).getD 0
     if got != n.toNat! then .error s!"C16: producer {p} had {n} events accepted but {got} were delivered" else .ok (st, t)
+  | "hang" :: rest => .error s!"C16: the consumer never returned from TryPop (after {natOf rest "popped"} elements of a queue that producers keep full): an accepted element was lost and its slot stays empty"
   | ["end"] => .ok (st, t)
   | _ => .error "unknown line"
 
